@@ -61,6 +61,8 @@ func main() {
 			traceOut = os.Args[4]
 		}
 		os.Exit(replayMain(os.Args[2], os.Args[3], traceOut))
+	case "conc-free":
+		os.Exit(conc.FreeMain(os.Stdin, os.Stdout))
 	case "conc-ref":
 		task := 0
 		if len(os.Args) > 2 {
